@@ -54,7 +54,9 @@ def mod : Val → Val → Val
 def pow : Val → Val → Val
   | .q a, .q b =>
     if b.den = 1 then
-      if b.num ≥ 0 then .q (a ^ b.num.toNat)
+      -- exponents beyond 64 (or huge bases) leave the exactly representable range: outside the model
+      if b.num.natAbs > 64 || a.num.natAbs > 1000000 || a.den > 1000000 then .unk
+      else if b.num ≥ 0 then .q (a ^ b.num.toNat)
       else if a = 0 then .pinf else .q (1 / a ^ (-b.num).toNat)
     else .unk
   | _, _ => .unk
@@ -143,10 +145,7 @@ structure Smp where
 /-- `sampleExtractor.Extract` -/
 def extract (env : Env) (op : RangeOp) (uw : Option Unwrap) (e : Entry) : Option Val :=
   match op with
-  | .count | .rate | .absent =>
-    (match op, uw with
-     | .rate, some u => unwrapVal env u e
-     | _, _ => some (.q 1))
+  | .count | .rate | .absent => some (.q 1)     -- `rate` counts lines even when an unwrap is given (as coded)
   | .bytes | .bytesRate => some (.q e.line.length)
   | _ =>
     match uw with
